@@ -17,6 +17,8 @@ func main() {
 		cmdVerify(os.Args[2:])
 	case "check":
 		cmdCheck(os.Args[2:])
+	case "sweep":
+		cmdSweep(os.Args[2:])
 	case "ledger":
 		cmdLedger(os.Args[2:])
 	default:
